@@ -12,7 +12,9 @@ import (
 	"fmt"
 	"math"
 	"math/rand"
+	"os"
 	"strings"
+	"time"
 
 	"github.com/mithrandie/csvq/lib/parser"
 	"github.com/mithrandie/csvq/lib/query"
@@ -334,7 +336,41 @@ func (x *c16Exec) exec(sql string) error {
 	if len(stmts) != 1 {
 		panic("c16: expected one statement: " + sql)
 	}
-	_, err = x.cur().ExecuteStatement(x.ctx, stmts[0])
+	return x.guarded(x.cur(), stmts[0], sql)
+}
+
+// c16Failure: the implementation panicked or did not come back from a statement
+type c16Failure struct {
+	kind, sql, detail string
+}
+
+const c16StmtTimeout = 20 * time.Second
+
+// every statement runs under a watchdog; a panic or a statement that does not terminate is a
+// violation established by the harness itself (reported with the history so far)
+func (x *c16Exec) guarded(proc *query.Processor, stmt parser.Statement, sql string) (err error) {
+	done := make(chan struct{})
+	var perr interface{}
+	ctx, cancel := context.WithCancel(x.ctx)
+	defer cancel()
+	go func() {
+		defer func() {
+			if r := recover(); r != nil {
+				perr = r
+			}
+			close(done)
+		}()
+		_, err = proc.ExecuteStatement(ctx, stmt)
+	}()
+	select {
+	case <-done:
+	case <-time.After(c16StmtTimeout):
+		cancel()
+		panic(c16Failure{kind: "statement-does-not-terminate", sql: sql, detail: fmt.Sprintf("no answer after %s", c16StmtTimeout)})
+	}
+	if perr != nil {
+		panic(c16Failure{kind: "panic", sql: sql, detail: fmt.Sprint(perr)})
+	}
 	return err
 }
 
@@ -508,8 +544,7 @@ func (x *c16Exec) execOn0(sql string) error {
 	if err != nil {
 		return err
 	}
-	_, err = x.procs[0].ExecuteStatement(x.ctx, stmts[0])
-	return err
+	return x.guarded(x.procs[0], stmts[0], sql)
 }
 
 // ---- tables -------------------------------------------------------------------------------------------
@@ -963,17 +998,32 @@ func c16Corpus() []*c16Case {
 }
 
 // ---- driver ---------------------------------------------------------------------------------------------
-func c16RunCase(cs *c16Case) (initDB string, obs []c16Obs) {
+func c16RunCase(cs *c16Case) (initDB string, obs []c16Obs, fail *c16Failure) {
 	sc := newScratch()
 	defer sc.Close()
 	writeCSV(sc.Path("t.csv"), []string{"id", "v"}, cs.tRows)
 	tx := newTx(sc.Dir)
 	x := &c16Exec{ctx: context.Background(), tx: tx, procs: []*query.Processor{query.NewProcessor(tx)}}
-	defer func() {
+	release := func() {
 		for i := len(x.procs) - 1; i >= 1; i-- {
 			x.procs[i].Close()
 		}
 		_ = tx.ReleaseResourcesWithErrors()
+	}
+	defer func() {
+		if r := recover(); r != nil {
+			f, ok := r.(c16Failure)
+			if !ok {
+				panic(r)
+			}
+			fail = &f
+			if f.kind == "panic" {
+				for i := len(x.procs) - 1; i >= 1; i-- {
+					x.procs[i].Close()
+				}
+				_ = tx.ReleaseResourcesWithErrors()
+			}
+		}
 	}()
 	x.must("VAR @v0, @v1, @v2, @v3, @p;")
 	x.must("DECLARE tt VIEW (id, v);")
@@ -993,6 +1043,7 @@ func c16RunCase(cs *c16Case) (initDB string, obs []c16Obs) {
 	for _, o := range cs.ops {
 		obs = append(obs, x.step(o))
 	}
+	release()
 	return
 }
 
@@ -1005,15 +1056,30 @@ func runC16(seed int64, tier string, out string) {
 		footer: func(ls []string) string {
 			return "Definition M := Eval vm_compute in (check_cases cases).\nPrint M.\n"
 		}}
-	n := 1500
+	n := 1200
 	if tier == "thorough" {
 		n = 16000
 		w.max = 1000
 	}
 	sig := map[string]bool{}
 	id := 0
+	stop := false
 	emit := func(cs *c16Case, origin string) {
-		initDB, obs := c16RunCase(cs)
+		initDB, obs, fail := c16RunCase(cs)
+		if fail != nil {
+			var hist []string
+			for i := 0; i <= len(obs) && i < len(cs.ops); i++ {
+				hist = append(hist, cs.ops[i].sql())
+			}
+			meta.Direct = append(meta.Direct, DirectViolation{Key: "C16:" + fail.kind,
+				What: fmt.Sprintf("%s: %s (%s) after the history shown in the replay", fail.kind, fail.sql, fail.detail),
+				Case: map[string]interface{}{"origin": origin, "table_t": showCellRows(cs.tRows), "table_tt": cs.ttRows, "history": hist, "failing_statement": fail.sql, "detail": fail.detail}})
+			meta.Distribution["failure:"+fail.kind]++
+			if fail.kind != "panic" || len(meta.Direct) >= 5 {
+				stop = true
+			}
+			return
+		}
 		steps := make([]string, len(cs.ops))
 		var show []interface{}
 		huge := false
@@ -1082,13 +1148,18 @@ func runC16(seed int64, tier string, out string) {
 		meta.Evaluations += len(cs.ops)
 	}
 	for _, cs := range c16Corpus() {
-		emit(cs, "corpus")
+		if !stop {
+			emit(cs, "corpus")
+		}
 	}
-	for i := 0; i < n; i++ {
+	for i := 0; i < n && !stop; i++ {
 		emit(c16Generate(r), "random")
 	}
 	w.flush()
 	meta.Distinct = len(sig)
 	meta.Notes = append(meta.Notes, "evaluations = statements executed on the implementation and compared; out-of-range FETCH leaves the variables unchanged (the manual says NULL) -- the model follows the code, not flagged (DESIGN.md section 5, C16)")
 	meta.write(out)
+	if stop {
+		os.Exit(0) // a statement of the implementation may still be spinning
+	}
 }
